@@ -3,10 +3,12 @@
 translate:   translator/extract_antex.py  (every `fields` table of AntexParser.setup_parser()
              -> lean/Midgard/Generated/AntexCols.lean)
 prove:       lean/Midgard/Props/C15.lean  (generated columns = ANTEX 1.4 columns, per-record round trip,
-             cache invariant `freq_isolated`, mm->m, grids, validity dates)
-correspond:  random antenna models -> independent Python writer -> text; the Lean spec renderer must
-             produce the same text from the same records; the real AntexParser and the Lean model of the
-             ChainParser/AntexParser state machine parse that text; canonicalised outputs are compared
+             cache invariant `freq_isolated`, mm->m, grids, validity dates; file level: `file_roundtrip`
+             parseText (render F) = calibrations F for every well-formed abstract file F of Spec/AntexFile.lean)
+correspond:  random antenna models -> independent Python writer -> text; the same model as the abstract file F
+             goes to the driver: `render F` (the theorem's renderer) must be that text byte for byte, `F.wf` must
+             hold and the instance of file_roundtrip must evaluate to true; the real AntexParser and the Lean model
+             of the ChainParser/AntexParser state machine parse that text; canonicalised outputs are compared
              (numbers as exact rationals of the parsed doubles)
 oracle:      the real parser's as_dict()/meta compared directly with the generating model (no Lean)
 """
@@ -202,10 +204,19 @@ def gen_antenna(rng, kind: str, used: Dict[str, Any], thorough: bool, decimal_gr
         if rng.random() < 0.1:
             f["neu"][rng.randint(0, 2)] = rng.choice(["0.00", "-99999.99", "999999.99", "-0.00"])
         a["freqs"].append(f)
-    # optional RMS blocks (after all frequency sections, ANTEX 1.4 order)
+    # optional START OF FREQ RMS ... END OF FREQ RMS sections (same row layout as a frequency section; their numbers
+    # belong to no frequency's calibration).  Layouts: "interleaved" = every rms section directly after its frequency
+    # section (frequency / rms / frequency / rms, individually calibrated antennas), "after" = all rms sections after the
+    # last frequency section.  Not every frequency need have one.
     a["rms"] = []
-    if rng.random() < 0.2:
+    a["rms_layout"] = None
+    k = rng.random()
+    if k < 0.4:
+        a["rms_layout"] = "interleaved" if k < 0.28 else "after"
+        some = rng.random() < 0.3
         for f in a["freqs"]:
+            if some and rng.random() < 0.4:
+                continue
             a["rms"].append({"code": f["code"], "neu": [dec_text(rng, 0, 5, 2) for _ in range(3)],
                              "noazi": [dec_text(rng, 0, 3, 2) for _ in range(nzen)],
                              "azi": [[dec_text(rng, 0, 3, 2) for _ in range(nzen)] for _ in range(a["nazi"])]})
@@ -258,19 +269,27 @@ def antenna_records(a) -> List[Tuple[str, List[str]]]:
         for i, row in enumerate(f["azi"]):
             recs.append(("AZI", [azi_label(a, i)] + list(row)))
         recs.append(("EOF", [f["code"]]))
-    for f in a["rms"]:
-        recs.append(("SOR", [f["code"]]))
-        recs.append(("NEU", list(f["neu"])))
-        recs.append(("NOAZI", list(f["noazi"])))
-        for i, row in enumerate(f["azi"]):
-            recs.append(("AZI", [azi_label(a, i)] + list(row)))
-        recs.append(("EOR", [f["code"]]))
+        if a.get("rms_layout") == "interleaved":
+            for r in a["rms"]:
+                if r["code"] == f["code"]:
+                    recs += rms_records(a, r)
+    if a.get("rms_layout") != "interleaved":
+        for r in a["rms"]:
+            recs += rms_records(a, r)
     # comments / blank lines at pseudo-random positions strictly inside the section
     extra = [(p, ("COM", [t])) for p, t in a["comments"]] + [(p, ("BLANK", [])) for p in a["blank_lines"]]
     for p, r in sorted(extra, key=lambda x: x[0]):
         idx = 1 + int(p * (len(recs) - 1))
         recs.insert(idx, r)
     recs.append(("EOA", []))
+    return recs
+
+
+def rms_records(a, r) -> List[Tuple[str, List[str]]]:
+    recs: List[Tuple[str, List[str]]] = [("SOR", [r["code"]]), ("NEU", list(r["neu"])), ("NOAZI", list(r["noazi"]))]
+    for i, row in enumerate(r["azi"]):
+        recs.append(("AZI", [azi_label(a, i)] + list(row)))
+    recs.append(("EOR", [r["code"]]))
     return recs
 
 
@@ -302,6 +321,97 @@ def file_records(m) -> List[Tuple[str, List[str]]]:
 def records_line(recs) -> str:
     """protocol form of a record list: KIND:hex,hex,..."""
     return " ".join(k + ":" + ",".join(hexs(c) for c in cells) if cells else k + ":" for k, cells in recs)
+
+
+# ... the same model as the abstract file `FileM` of lean/Midgard/Spec/AntexFile.lean (the file the theorem
+# `file_roundtrip` is about): header, antennas with their frequency / rms sections, and the unread lines (COMMENT,
+# METH, SINEX CODE, blank) as the `deco` lists in front of the records
+
+INERT_KINDS = {"COM": "c", "METH": "m", "SINEX": "s", "BLANK": "b"}
+
+
+def wire_inert(kind: str, cells: List[str]) -> List[str]:
+    return [INERT_KINDS[kind]] + [hexs(c) for c in cells]
+
+
+def wire_sec(a, sec) -> List[str]:
+    out = [hexs(x) for x in sec["neu"]] + [str(len(sec["noazi"]))] + [hexs(x) for x in sec["noazi"]] + [str(len(sec["azi"]))]
+    for i, row in enumerate(sec["azi"]):
+        out += [hexs(azi_label(a, i)), str(len(row))] + [hexs(x) for x in row]
+    return out
+
+
+def wire_date(v) -> List[str]:
+    return ["-"] if not v else ["d"] + [hexs(str(x)) for x in v]
+
+
+def wire_antenna(a, before: List[str]) -> List[str]:
+    out = [hexs(a["type"]), hexs(a["code"]), hexs(a["sat_code"]), hexs(a["cospar"]), hexs(a["dazi"]), hexs(a["zen1"]), hexs(a["zen2"]),
+           hexs(a["dzen"]), hexs(str(len(a["freqs"])))] + wire_date(a["valid_from"]) + wire_date(a["valid_until"])
+    inter = a.get("rms_layout") == "interleaved"
+    out.append(str(len(a["freqs"])))
+    for f in a["freqs"]:
+        out += [hexs(f["code"])] + wire_sec(a, f)
+        r = next((r for r in a["rms"] if r["code"] == f["code"]), None) if inter else None
+        out += ["r"] + wire_sec(a, r) if r else ["-"]
+    after = [] if inter else a["rms"]
+    out.append(str(len(after)))
+    for r in after:
+        out += [hexs(r["code"])] + wire_sec(a, r)
+    # unread lines: in front of the i-th record of the section
+    deco: List[List[List[str]]] = []
+    pending: List[List[str]] = [["c", hexs(t)] for t in before]
+    for kind, cells in antenna_records(a):
+        if kind in INERT_KINDS:
+            pending.append(wire_inert(kind, cells))
+        else:
+            deco.append(pending)
+            pending = []
+    out.append(str(len(deco)))
+    for d in deco:
+        out.append(str(len(d)))
+        for i in d:
+            out += i
+    return out
+
+
+def wire_file(m) -> str:
+    c1 = m["comments"] if m["comment_first"] else []
+    c2 = [] if m["comment_first"] else m["comments"]
+    out = [hexs(m["version"]), hexs(m["sat_sys"]), hexs(m["pcv_type"]), hexs(m["ref_antenna"]), hexs(m["ref_serial_num"])]
+    out += [str(len(c1))] + [hexs(c) for c in c1] + [str(len(c2))] + [hexs(c) for c in c2]
+    n = len(m["antennas"])
+    out.append(str(n))
+    for i, a in enumerate(m["antennas"]):
+        out += wire_antenna(a, [t for pos, t in m["between"] if pos == i])
+    tr = [t for pos, t in m["between"] if pos == n]
+    out.append(str(len(tr)))
+    for t in tr:
+        out += ["c", hexs(t)]
+    return " ".join(out)
+
+
+def model_file(ctx: Ctx, drv, m, text: str, case) -> Optional[str]:
+    """the abstract file through `render F` / `parseText` / `calibrations F` in the driver (the functions the theorem
+    `file_roundtrip` is about); returns the model's parse of the rendered text (None when the driver refused)"""
+    ans = drv.ask1("c15 model " + wire_file(m))
+    if ans == "bad-op":
+        ctx.disagree("abstract file not accepted by the driver", case, ans, "")
+        return None
+    head, _, parse = ans.partition(" ;; ")
+    f = dict(t.split("=", 1) for t in head.split())
+    if f.get("wf") != "1":
+        ctx.disagree("generated file does not satisfy the theorem's well-formedness predicate (generator outside FileM.wf)", case, "wf=0", "")
+    elif f.get("thm") != "1":
+        ctx.disagree("file_roundtrip instance: compiled parseText (render F) differs from calibrations F", case, "thm=0", "")
+    lean_text = unhex(f.get("text", "."))
+    if lean_text != text:
+        got, want = lean_text.split("\n"), text.split("\n")
+        bad = next((k for k, (x, y) in enumerate(zip(got, want)) if x != y), -1)
+        ctx.disagree("render F (Lean, the theorem's renderer) = independent writer (Python), byte for byte", {**case, "line": bad},
+                     got[bad] if bad >= 0 else f"{len(lean_text)} characters", want[bad] if bad >= 0 else f"{len(text)} characters")
+        return None
+    return parse
 
 
 # ... and the independent writer (ANTEX 1.4 formats as Fortran edit descriptors -> % formats)
@@ -758,12 +868,12 @@ def model_parse(drv, text: str):
     return parse_model_out(drv.ask1("c15 parse " + hexs(text)))
 
 
-def one_text(ctx: Ctx, drv, wd: Workdir, text: str, case: Dict[str, Any], m=None, name="parse(file)"):
+def one_text(ctx: Ctx, drv, wd: Workdir, text: str, case: Dict[str, Any], m=None, name="parse(file)", model_ans=None):
     """correspondence (+ oracle when the generating model is known) on one file text"""
     p, err, exc = run_impl(wd, text)
     now = _dt.datetime.now()
     impl = err if p is None else canon_impl(p, now)
-    model = model_parse(drv, text) if drv is not None else None
+    model = (parse_model_out(model_ans) if model_ans is not None else model_parse(drv, text)) if drv is not None else None
     ties = has_tie(m) if m is not None else True
     if drv is not None:
         if isinstance(model, str) or isinstance(impl, str):
@@ -796,9 +906,12 @@ def run(ctx: Ctx):
     ctx.rule = ("random ANTEX models: 1-6 antennas mixing receiver/satellite, 1-5 frequencies, DAZI in {0,2.5,5,10,15,30,45,60,90,120,180}, "
                 "zenith grids (ZEN1 in {0,.5,1,2.5,5,10}, DZEN in {.5,1,2,2.5,4,5,10,15}, 1-19 angles), VALID FROM/UNTIL absent / 0 s / 59.9999999 s / "
                 "7th-digit ties / random, several periods per PRN, +signed values, values filling 7 of 8 columns, comments and blank lines "
-                "anywhere, METH/SINEX CODE records, FREQ RMS blocks; written by an independent Python writer; non-trivial = at least one "
+                "anywhere, METH/SINEX CODE records, START OF FREQ RMS sections (with azimuth rows) directly after their frequency section "
+                "(frequency / rms / frequency) or after the last frequency, for all or some frequencies; written by an independent Python "
+                "writer and by the Lean renderer of file_roundtrip (byte-identical); non-trivial = at least one "
                 "antenna with >= 2 frequencies and an azimuth grid, or a satellite with non-zero seconds; distinct by file text")
-    ctx.trusted += ["float(text) is correctly rounded (CPython); the model keeps the exact decimal and the harness compares with float(Fraction)",
+    ctx.trusted += ["the wire decoding of the abstract file in Driver/C15.lean (validated per case: render F = independent writer's text)",
+                    "float(text) is correctly rounded (CPython); the model keeps the exact decimal and the harness compares with float(Fraction)",
                     "datetime + timedelta normalisation is CPython's; the Lean model has its own proleptic-Gregorian day count (compared, not proved)",
                     "np.arange/np.radians grid values are measured against the exact grid (1e-14 rad), not proved",
                     "neu = double * 0.001 measured to 4 ulp against the exact text/1000"]
@@ -842,15 +955,13 @@ def run(ctx: Ctx):
                              for a in m["antennas"])
             ctx.case(common.digest(text), nontrivial=nontrivial)
             stats(ctx, m)
-            # the Lean spec renderer must write the same text as the independent writer
-            if drv is not None:
-                ans = drv.ask1("c15 render " + records_line(file_records(m)))
-                if ans == "bad-op" or unhex(ans) != text:
-                    got = unhex(ans) if ans != "bad-op" else ans
-                    bad = next((k for k, (x, y) in enumerate(zip(got.split("\n"), text.split("\n"))) if x != y), -1)
-                    ctx.disagree("render(model) = independent writer", {"i": i, "line": bad},
-                                 got.split("\n")[bad] if bad >= 0 else got[:80], text.split("\n")[bad] if bad >= 0 else text[:80])
-            one_text(ctx, drv, wd, text, case, m)
+            # the abstract file F: `render F` (Lean) must be the independent writer's text byte for byte, F.wf must hold,
+            # the instance of file_roundtrip must evaluate to true; the model's parse of that text is compared with the
+            # real parser below
+            ans = model_file(ctx, drv, m, text, {"i": i}) if drv is not None else None
+            if ans is not None:
+                ctx.count("file_roundtrip instances evaluated (wf, thm, render = writer)")
+            one_text(ctx, drv, wd, text, case, m, model_ans=ans)
             if i % 10 == 0:
                 check_calibration(ctx, wd, m, text, case)
         # files that are *not* well-formed in one way: a repeated antenna / frequency / period must be refused
@@ -871,7 +982,8 @@ def run(ctx: Ctx):
             ctx.count(f"duplicate {how}")
             p, err, _ = run_impl(wd, text)
             if drv is not None:
-                model = model_parse(drv, text)
+                ans = model_file(ctx, drv, m2, text, case)
+                model = parse_model_out(ans) if ans is not None else model_parse(drv, text)
                 if (model if isinstance(model, str) else "value") != (err or "value"):
                     ctx.disagree("parse(file with a repeated section)", case, model if isinstance(model, str) else "a value", err or "a value")
             if err != "ERR:not-unique":
@@ -932,7 +1044,15 @@ def stats(ctx: Ctx, m):
         ctx.count(f"nfreq={len(a['freqs'])}")
         ctx.count(f"dazi={a['dazi']}")
         if a["rms"]:
-            ctx.count("rms blocks")
+            ctx.count(f"rms layout={a['rms_layout']}")
+            ctx.count(f"rms sections per antenna={len(a['rms'])}")
+            if a["rms_layout"] == "interleaved":
+                codes = [f["code"] for f in a["freqs"]]
+                rc = {r["code"] for r in a["rms"]}
+                # an rms section directly followed by a further frequency section of the same antenna
+                nfollow = sum(1 for i, c in enumerate(codes[:-1]) if c in rc)
+                if nfollow:
+                    ctx.count("rms section followed by a frequency section" + (" (azimuth rows)" if a["nazi"] else " (NOAZI only)"), nfollow)
         if a["comments"]:
             ctx.count("antenna with comments")
         for v, nm in ((a["valid_from"], "valid_from"), (a["valid_until"], "valid_until")):
